@@ -82,6 +82,11 @@ fn send(method: &str, path: &str, wire_q: &str, headers: Vec<(String, String)>) 
 
 /// GET <path>?<q> with SigV4 header authentication, signed per the specification
 pub fn header_auth(path: &str, q: &[(String, String)]) -> (u16, Vec<String>, String) {
+    header_auth_with(path, q, |s| s)
+}
+
+/// the same, with the signature text altered by `f` before it is presented
+pub fn header_auth_with(path: &str, q: &[(String, String)], f: impl Fn(String) -> String) -> (u16, Vec<String>, String) {
     let (date, stamp) = now_stamp(0);
     let payload = "UNSIGNED-PAYLOAD";
     let host = "localhost";
@@ -89,7 +94,7 @@ pub fn header_auth(path: &str, q: &[(String, String)]) -> (u16, Vec<String>, Str
         uri_encode(path, false), canonical_query(q));
     let scope = format!("{date}/us-east-1/s3/aws4_request");
     let sts = format!("AWS4-HMAC-SHA256\n{stamp}\n{scope}\n{}", sha256_hex(canonical.as_bytes()));
-    let sig = hex(&hmac(&signing_key(&date, "us-east-1", "s3"), sts.as_bytes()));
+    let sig = f(hex(&hmac(&signing_key(&date, "us-east-1", "s3"), sts.as_bytes())));
     let auth = format!("AWS4-HMAC-SHA256 Credential={AK}/{scope}, SignedHeaders=host;x-amz-content-sha256;x-amz-date, Signature={sig}");
     send("GET", path, &wire_query(q), vec![("host".into(), host.into()), ("x-amz-content-sha256".into(), payload.into()), ("x-amz-date".into(), stamp), ("authorization".into(), auth)])
 }
@@ -181,4 +186,28 @@ pub fn header_value(a: &[String]) -> Value {
     let ok = calls.len() == 1;
     json!({"violates": !ok, "input": {"x-amz-meta-probe": raw, "canonical_value": trimall}, "expected": "authenticated (one backend invocation)",
            "observed": {"status": st, "backend_calls": calls, "body": body.chars().take(200).collect::<String>()}, "replay_args": ["sigv4-header-value", a[0]]})
+}
+
+/// sigv4-tamper: a correctly computed header signature presented truncated / empty / extended / with one character changed
+/// must be refused before the backend runs
+pub fn tamper() -> Value {
+    let cases: Vec<(&str, Box<dyn Fn(String) -> String>)> = vec![
+        ("empty", Box::new(|_| String::new())),
+        ("first 63 characters", Box::new(|s| s[..63].to_owned())),
+        ("first 32 characters", Box::new(|s| s[..32].to_owned())),
+        ("first character", Box::new(|s| s[..1].to_owned())),
+        ("one character appended", Box::new(|s| format!("{s}0"))),
+        ("last character changed", Box::new(|s| { let mut t = s[..63].to_owned(); t.push(if s.ends_with('0') { '1' } else { '0' }); t })),
+    ];
+    let mut n = 0;
+    for (what, f) in cases {
+        n += 1;
+        let (st, calls, body) = header_auth_with("/bkt/key", &[], f);
+        if !calls.is_empty() || st < 400 {
+            return json!({"violates": true, "input": {"presented_signature": what, "request": "GET /bkt/key, SigV4 header auth, otherwise correctly signed"},
+                          "expected": "refused (SignatureDoesNotMatch / 4xx), no backend invocation", "observed": {"status": st, "backend_calls": calls, "body": body.chars().take(160).collect::<String>()},
+                          "replay_args": ["sigv4-tamper"]});
+        }
+    }
+    json!({"violates": false, "evaluated": n})
 }
